@@ -8,6 +8,7 @@ import HG.Model.Events
 import HG.Model.Viz
 import HG.Model.Build
 import HG.Model.Heap
+import HG.Model.IsoNested
 /-! Line protocol driver: one JSON request per line on stdin, one JSON response per line on stdout.
 Evaluates the model's own definitions; malformed requests yield `{"bad": reason}` (never a default). -/
 open Lean HG Driver
@@ -24,6 +25,49 @@ partial def tyOfJson : Json → P TypeCompat.Ty
     | .ok u, _ => pure (.union (← list tyOfJson u))
     | _, .ok t => pure (.annotated (← tyOfJson t))
     | _, _ => pure (.gen (← str (← field j "g")) (← list tyOfJson (← field j "a")))
+
+/-- nested run-isolation nodes: `{"fn": {srcs, eff, out}}` or `{"sub": {inner, fwd, items, clone, outs}}` -/
+partial def isoNode (j : Json) : P IsoN.Node := do
+  let srcOf (q : Json) : P Iso.Src := do
+    match q.getObjVal? "default", q.getObjVal? "bound", q.getObjVal? "provided" with
+    | .ok c, _, _ => do pure (Iso.Src.default (← nat c))
+    | _, .ok c, _ => do pure (Iso.Src.bound (← nat c))
+    | _, _, .ok k => do pure (Iso.Src.provided (← str k))
+    | _, _, _ => throw "bad src"
+  match j.getObjVal? "fn", j.getObjVal? "sub" with
+  | .ok f, _ => do
+    let srcs ← list srcOf (← field f "srcs")
+    let eff : Iso.Eff ← (match fieldD f "eff" .null with
+      | .null => pure Iso.Eff.none
+      | e => do
+        let a ← arr e
+        match a.toList with
+        | [i, x] => pure (Iso.Eff.appendTo (← nat i) (← int x))
+        | _ => throw "bad eff")
+    pure (.fn srcs eff (← str (← field f "out")))
+  | _, .ok sj => do
+    let inner ← list isoNode (← field sj "inner")
+    let fwd ← list (fun q => do
+      let a ← arr q
+      match a.toList with
+      | [k, v] => do
+        let s' : IsoN.Src' ← (match v.getObjVal? "provided", v.getObjVal? "bound" with
+          | .ok k', _ => do pure (IsoN.Src'.provided (← str k'))
+          | _, .ok c => do pure (IsoN.Src'.bound (← nat c))
+          | _, _ => throw "bad fwd src")
+        pure ((← str k), s')
+      | _ => throw "bad fwd entry") (fieldD sj "fwd" (.arr #[]))
+    let items : Option (List (AL Nat)) ← (match fieldD sj "items" .null with
+      | .null => pure none
+      | l => do pure (some (← list (pairs nat) l)))
+    let clone : IsoN.CloneCfg ← (match fieldD sj "clone" .null with
+      | .null => pure IsoN.CloneCfg.none
+      | .bool false => pure IsoN.CloneCfg.none
+      | .bool true => pure IsoN.CloneCfg.all
+      | .str "all" => pure IsoN.CloneCfg.all
+      | l => do pure (IsoN.CloneCfg.only (← list str l)))
+    pure (.sub inner fwd items clone (← list str (fieldD sj "outs" (.arr #[]))))
+  | _, _ => throw "bad iso node"
 
 def handle (j : Json) : P Json := do
   let op ← str (← field j "op")
@@ -341,6 +385,32 @@ def handle (j : Json) : P Json := do
             match a.copyOf with | some r => .num (JsonNumber.fromNat r) | none => .null]).toArray)]).toArray),
       ("cells", .arr ((w.mem.cells.take cells.length).map encInts).toArray),
       ("dicts", .arr ((w.mem.dicts.take dicts.length).map fun d => encAL (fun r => Json.num (JsonNumber.fromNat r)) d).toArray)])
+  | "isorunN" =>
+    -- nested / mapped run-isolation model driven by the real top-level schedule
+    let cells ← list (list int) (← field j "cells")
+    let dicts ← list (pairs nat) (fieldD j "dicts" (.arr #[]))
+    let specs ← list (fun sj => do
+      let nodes ← list isoNode (← field sj "nodes")
+      let values : Option Nat ← (match fieldD sj "values" .null with | .null => pure none | v => do pure (some (← nat v)))
+      let kwargs ← pairs nat (fieldD sj "kwargs" (.arr #[]))
+      pure ({ nodes := nodes, values := values, kwargs := kwargs } : IsoN.RunSpec)) (← field j "specs")
+    let sched ← list (fun q => do
+      let a ← arr q
+      match a.toList with
+      | [r, k] => pure ((← nat r), (← nat k))
+      | _ => throw "bad sched entry") (← field j "sched")
+    let w0 : IsoN.World := { mem := { cells := cells, dicts := dicts } }
+    let w := IsoN.runSched true specs w0 sched
+    let encInts (l : List Int) : Json := .arr (l.map fun i => Json.num (JsonNumber.fromInt i)).toArray
+    let n (k : Nat) : Json := .num (JsonNumber.fromNat k)
+    pure (Json.mkObj [
+      ("log", .arr (w.log.map fun c => Json.mkObj [
+        ("rid", n c.rid), ("sid", n c.sid), ("path", .arr (c.path.map fun p => Json.arr #[n p.1, n p.2]).toArray),
+        ("before", .arr (c.res.before.map encInts).toArray), ("after", encInts c.res.after),
+        ("args", .arr (c.args.map fun a => Json.arr #[n a.ref, match a.copyOf with | some r => n r | none => .null]).toArray)]).toArray),
+      ("cells", .arr ((w.mem.cells.take cells.length).map encInts).toArray),
+      ("dicts", .arr ((w.mem.dicts.take dicts.length).map fun d => encAL (fun r => n r) d).toArray),
+      ("wf", .bool (IsoN.wfCheck specs w0.mem))])
   | "rename" =>
     -- rename bookkeeping: original names, optional constructor batch, successive call batches
     let orig ← list str (← field j "orig")
